@@ -13,8 +13,19 @@ pub fn node_case(src: &str) -> String {
         (Err(e), Err(d)) => {
             let want = e.to_string();
             let got = d.to_string();
-            // ron wraps the custom message with a position; the message must be contained
-            if got.contains(&want) { format!("SAME ERR {}", error_text(&e)) } else { format!("DIFF-ERR {} {}", hex(&want), hex(&got)) }
+            // ron prefixes the custom message with a position `line:col: `; apart from that the message must be the same
+            let bare = {
+                let mut parts = got.splitn(3, ':');
+                match (parts.next(), parts.next(), parts.next()) {
+                    (Some(a), Some(b), Some(rest))
+                        if !a.is_empty() && !b.is_empty() && a.chars().all(|c| c.is_ascii_digit()) && b.chars().all(|c| c.is_ascii_digit()) =>
+                    {
+                        rest.strip_prefix(' ').unwrap_or(rest).to_string()
+                    },
+                    _ => got.clone(),
+                }
+            };
+            if bare == want { format!("SAME ERR {}", error_text(&e)) } else { format!("DIFF-ERR {} {}", hex(&want), hex(&got)) }
         },
         (Ok(a), Err(d)) => format!("DIFF-OK-ERR {} {}", tree_text(&a), hex(d.to_string())),
         (Err(e), Ok(b)) => format!("DIFF-ERR-OK {} {}", error_text(&e), tree_text(&b)),
